@@ -60,6 +60,8 @@ def rf_configs(draw, spf_cap=4096, boundary_p=0.6, force=None):
     kind = draw(st.sampled_from(["i", "i", "u", "f"]))
     size = draw(st.sampled_from([1, 2, 4, 8])) if kind != "f" else draw(st.sampled_from([4, 8]))
     order = draw(st.sampled_from(["<", "<", ">"]))
+    if size == 1:
+        order = "<"  # numpy reports '|' for one-byte types; the writer maps that to little endian
     cplx = draw(st.integers(0, 1))
     form = draw(st.sampled_from(["struct", "native", "interleaved"]))
     nsub = draw(st.sampled_from([1, 1, 2, 3, 4, 8]))
